@@ -1,7 +1,7 @@
 #!/bin/bash
-# usage: confirm_seed.sh <PID> [outdir]   -- independent confirmation of a seeded change in its scratch worktree /tmp/wt_<PID>:
+# usage: confirm_seed.sh <PID> [outdir] [worktree]   -- independent confirmation of a seeded change in its scratch worktree /tmp/wt_<PID>:
 #  patch applies to a clean checkout, pinned suite result with the patch, demo fails with / passes without the patch.
-PID=$1; OUT=${2:-/tmp/seed_out/$PID}; WT=/tmp/wt_$PID
+PID=$1; OUT=${2:-/tmp/seed_out/$PID}; WT=${3:-/tmp/wt_$PID}
 cd $WT || exit 2
 git checkout -q -- . && git apply $OUT/patch.diff || { echo "PATCH-DOES-NOT-APPLY"; exit 2; }
 env -u SPARSESPACE_VERIF /venv/bin/python -m pytest -q -p no:cacheprovider --timeout=900 --continue-on-collection-errors test > $OUT/confirm_pytest.log 2>&1
